@@ -43,6 +43,7 @@ func (t *treeList) Len() int {
 func (t *treeList) Insert(v Value) {
 	if t.root == nil {
 		t.root = &treeNode{parent: nil, left: nil, right: nil, v: v}
+		t.length++
 	} else {
 		node := t.root
 	loop:
@@ -268,6 +269,7 @@ loop:
 				t.replaceInGrandparent(node, nil)
 			}
 			node.markDeleted()
+			t.length--
 			break loop
 		case ComparisonLess:
 			node = node.right
@@ -275,7 +277,6 @@ loop:
 			node = node.left
 		}
 	}
-	t.length--
 }
 
 func (t *treeList) findMinimum(node *treeNode) *treeNode {
